@@ -175,6 +175,9 @@ type DeltaDlt struct {
 	DeltaValDiffMinusMin []uint
 }
 
+// maxTileColumnsOrRows is a conservative upper bound for the number of tile columns and the number of tile rows.
+const maxTileColumnsOrRows = 1024
+
 // ParsePPSNALUnit - Parse AVC PPS NAL unit starting with NAL header
 func ParsePPSNALUnit(data []byte, spsMap map[uint32]*SPS) (*PPS, error) {
 	var err error
@@ -225,6 +228,11 @@ func ParsePPSNALUnit(data []byte, spsMap map[uint32]*SPS) (*PPS, error) {
 	if pps.TilesEnabledFlag {
 		pps.NumTileColumnsMinus1 = r.ReadExpGolomb()
 		pps.NumTileRowsMinus1 = r.ReadExpGolomb()
+		// The level limits of the standard allow at most 20 tile columns and 22 tile rows. Conservative bound.
+		if pps.NumTileColumnsMinus1 >= maxTileColumnsOrRows || pps.NumTileRowsMinus1 >= maxTileColumnsOrRows {
+			return nil, fmt.Errorf("num_tile_columns_minus1 %d or num_tile_rows_minus1 %d >= %d",
+				pps.NumTileColumnsMinus1, pps.NumTileRowsMinus1, maxTileColumnsOrRows)
+		}
 		pps.UniformSpacingFlag = r.ReadFlag()
 		if !pps.UniformSpacingFlag {
 			for i := uint(0); i < pps.NumTileColumnsMinus1; i++ {
